@@ -63,7 +63,7 @@ type entry = { e_c : content; mutable e_glob : gans; mutable e_matches : gmatch 
                mutable e_gok : (char list * bool) option; mutable e_wok : bool }
 
 type oent = { o_path : string; o_kind : string; o_mode : int; o_uname : string; o_gname : string; o_mtime : int;
-              o_size : int; o_sha256 : string; o_link : string; o_pax : string; o_flags : int; o_inpayload : bool; o_format : string }
+              o_size : int; o_sha256 : string; o_link : string; o_pax : string; o_flags : int; o_inpayload : bool; o_format : string; o_md5 : string }
 
 type case = {
   mutable id : string; mutable format : string;
@@ -113,7 +113,7 @@ let finish_entry e =
 let oent_of t = { o_path = unhexs t.(1); o_kind = unhexs t.(2); o_mode = int_of_string t.(3); o_uname = unhexs t.(4);
                   o_gname = unhexs t.(5); o_mtime = int_of_string t.(6); o_size = int_of_string t.(7); o_sha256 = unhexs t.(8);
                   o_link = unhexs t.(9); o_pax = unhexs t.(10); o_flags = int_of_string t.(11); o_inpayload = (t.(12) = "1");
-                  o_format = unhexs t.(13) }
+                  o_format = unhexs t.(13); o_md5 = (if Array.length t > 14 then unhexs t.(14) else "") }
 
 (* iterate over the cases of a file; [on_path] handles the C05 path lines *)
 let iter_cases (ic : in_channel) (on_path : string array -> unit) (f : case -> unit) =
@@ -395,10 +395,96 @@ let run_c09 ic =
               "observed:   " ^ String.concat "," (List.map (fun (s, b) -> implode s ^ "(" ^ string_of_int (List.length b) ^ "B)") obs)]));
   Printf.printf "SUMMARY cases=%d disagreements=%d impl_failures=%d impl_errors=%d\n" !n !n_dis !n_fail !n_err
 
+(* ---------- C03 ---------- *)
+let c03_clause_name = function
+  | DDigest -> "digest" | DSize -> "size" | DMd5sums -> "md5sums" | DInstalledSize -> "installed-size" | DMtree -> "mtree"
+
+let starts_with p s = String.length s >= String.length p && String.sub s 0 (String.length p) = p
+
+let run_c03 ic =
+  let n = ref 0 and n_dis = ref 0 and n_fail = ref 0 and n_err = ref 0 and n_dig = ref 0 in
+  iter_cases ic (fun _ -> ()) (fun c ->
+      incr n;
+      let f = fmt_of_string c.format in
+      match c.impl_err, c.decode_err with
+      | Some _, _ -> incr n_err
+      | None, Some d -> incr n_fail; report c.id true ["undecodable"] [] [d]
+      | None, None ->
+        let payload = List.map (fun o -> { fo_name = explode o.o_path; fo_isfile = (o.o_kind = "file" && o.o_inpayload);
+                                           fo_size = z_of_int o.o_size; fo_md5 = explode o.o_md5 }) c.pents in
+        let md5 = List.map (fun (d, nm) -> (explode d, explode nm)) c.md5sums in
+        let has_md5 = List.mem ("has_md5sums", true) c.structs in
+        let installed = match List.assoc_opt "Installed-Size" c.meta with
+          | Some v -> (try Some (z_of_int (int_of_string v)) with _ -> Some (z_of_int (-1))) | None -> None in
+        let digests = List.map (fun (_, s, r) -> (explode s, explode r)) c.digests in
+        let sizes = List.map (fun (_, s, r) -> (z_of_int s, z_of_int r)) c.sizes in
+        n_dig := !n_dig + List.length digests + List.length sizes;
+        let mtree_ok = List.for_all (fun (k, v) -> (not (starts_with "mtree_" k)) || v) c.structs in
+        let clauses = check_C03 f payload md5 has_md5 installed digests sizes mtree_ok in
+        (* the model's prediction of the size estimate from the plan: sum of planned sizes *)
+        let agree = (match model_prepared c, f with
+            | Ok cs, (FDeb | FIpk) ->
+              let planned = List.fold_left (fun acc (e : pentry) ->
+                  match e.pe_kind, e.pe_data with
+                  | KFile, DSrc p -> acc + (try List.assoc (implode p) c.fsizes with Not_found -> 0)
+                  | _ -> acc) 0 (payload_of f c.mtime cs) in
+              let changelog = List.fold_left (fun acc o -> if o.o_kind = "file" && List.length (String.split_on_char '/' o.o_path) > 0
+                                                             && starts_with "./usr/share/doc/" o.o_path
+                                                             && Filename.basename o.o_path = "changelog.Debian.gz"
+                                                             && f = FDeb && List.assoc_opt "changelog" c.info <> Some "" then acc + o.o_size else acc) 0 c.pents in
+              let want = (planned + changelog) / 1024 in
+              (match installed with Some v -> int_of_z v = want | None -> want = 0)
+            | _ -> true) in
+        if not agree then incr n_dis;
+        if clauses <> [] then incr n_fail;
+        if clauses <> [] || not agree then
+          report c.id agree (List.sort_uniq compare (List.map c03_clause_name clauses)) []
+            (List.filter_map (fun (nm, s, r) -> if s <> r || s = "" then Some (Printf.sprintf "digest %s stored=%s recomputed=%s" nm s r) else None) c.digests
+             @ List.filter_map (fun (nm, s, r) -> if s <> r then Some (Printf.sprintf "size %s stored=%d recomputed=%d" nm s r) else None) c.sizes));
+  Printf.printf "SUMMARY cases=%d disagreements=%d impl_failures=%d impl_errors=%d digests_and_sizes_recomputed=%d\n" !n !n_dis !n_fail !n_err !n_dig
+
+(* ---------- C04 ---------- *)
+let c04_clause_name = function
+  | WUnique -> "names-unique" | WRelative -> "names-relative" | WDotPrefix -> "dot-prefix" | WNoDotDot -> "no-dotdot"
+  | WDirSlash -> "dir-slash" | WParents -> "parents-precede" | WStruct -> "structure" | WOrder -> "member-order"
+
+let run_c04 ic =
+  let n = ref 0 and n_dis = ref 0 and n_fail = ref 0 and n_err = ref 0 in
+  iter_cases ic (fun _ -> ()) (fun c ->
+      incr n;
+      let f = fmt_of_string c.format in
+      match c.impl_err, c.decode_err with
+      | Some _, _ -> incr n_err
+      | None, Some d -> incr n_fail; report c.id true ["undecodable"] [] [d]
+      | None, None ->
+        let informational = ["signed"; "has_install"; "has_md5sums"] in
+        let bad = List.filter (fun (k, v) -> (not v) && not (List.mem k informational)) c.structs in
+        let scripts_for_arch = List.exists (fun (slot, _, _, _) ->
+            List.mem slot ["preinstall"; "postinstall"; "preremove"; "postremove"; "archlinux.preupgrade"; "archlinux.postupgrade"]) c.scripts in
+        let install_ok = f <> FArch || (List.mem ("has_install", true) c.structs = scripts_for_arch) in
+        let members = List.map (fun o -> (explode o.o_path, o.o_kind = "dir")) c.pents in
+        let ctl = match f with
+          | FDeb | FIpk -> check_names f (List.map (fun o -> (explode o.o_path, o.o_kind = "dir")) c.cents)
+          | _ -> [] in
+        let clauses = check_C04 f members (bad = [] && install_ok) true @ ctl in
+        (* correspondence: the member names are the ones the payload model writes *)
+        let agree = (match model_prepared c with
+            | Ok cs -> List.map (fun (e : pentry) -> e.pe_path) (List.filter (fun (e : pentry) -> e.pe_inpayload) (payload_of f c.mtime cs))
+                       = List.map (fun o -> explode o.o_path) (List.filter (fun o -> o.o_inpayload) c.pents)
+            | Err _ -> false) in
+        if not agree then incr n_dis;
+        if clauses <> [] then incr n_fail;
+        if clauses <> [] || not agree then
+          report c.id agree (List.sort_uniq compare (List.map c04_clause_name clauses)) []
+            (List.map (fun (k, _) -> "structure fact false: " ^ k) bad @ (if install_ok then [] else [".INSTALL presence does not match configured scripts"])));
+  Printf.printf "SUMMARY cases=%d disagreements=%d impl_failures=%d impl_errors=%d\n" !n !n_dis !n_fail !n_err
+
 let () =
   match Sys.argv with
   | [| _; "C05"; file |] -> let ic = open_in file in run_c05 ic; close_in ic
   | [| _; "C01"; file |] -> let ic = open_in file in run_c01 ic; close_in ic
+  | [| _; "C03"; file |] -> let ic = open_in file in run_c03 ic; close_in ic
+  | [| _; "C04"; file |] -> let ic = open_in file in run_c04 ic; close_in ic
   | [| _; "C08"; file |] -> let ic = open_in file in run_c08 ic; close_in ic
   | [| _; "C09"; file |] -> let ic = open_in file in run_c09 ic; close_in ic
   | _ -> prerr_endline "usage: driver <property> <casefile>"; exit 2
